@@ -76,6 +76,11 @@ CHECKS = {
    technique="TLA+ Mount spec (ServeMux longest-pattern selection, prefix strip) checked by TLC; every mount-pattern set TLC enumerates installed through NewServer and probed on transcoding, Twirp, gRPC and gRPC-web against the bare Mux; validated by TLC against MountTrace.tla (PrefixTransparent, OutsideNotServed, ExtraHandlersKept)",
    text="For all 72 configurations (pattern sets of size <=3 from {/, /x, /x/, /x/y, /twirp, /api/}, with and without extra handlers) and requests under every prefix, no prefix, look-alike and foreign prefixes: TLC decides which registered pattern owns the path and requires the response digest (status, headers, trailers, body) to equal the bare mux's response to the stripped path, ServeMux's own 404 outside every prefix, and the extra handlers' tags on their patterns.",
    note="Direct drive of NewServer(...).Handler (h2c wrapper included) with httptest; unclean paths are unspecified. " + TB),
+
+ "C15": dict(engine="Deadline", level="model_checking", design="3.6, 6/C15",
+   technique="TLA+ Deadline spec: timeout-string shape classes (WellFormed / Unspecified) and a cancellation state machine whose liveness property CancelReleases TLC checks under weak fairness; TLC-enumerated shapes concretised and sent through the real Mux; cancel / disconnect schedules against gated handlers over loopback sockets (grpc-go client, raw HTTP/1.1); validated by TLC against DeadlineTrace.tla (DeadlineSet, MalformedRefused, CancelReachesContext, CancelReleases)",
+   text="Every timeout shape (0..10 value characters, digits or not, legal / missing / unknown / wrong-case unit, signed) is concretised with seeded and boundary values: a well-formed string must reach the handler with a deadline within 250 ms of receipt + value x unit (64-bit, clamped; computed by the driver in arbitrary precision), anything else must be refused without invoking the handler. For each streaming shape the handler is gated into a known position (busy, blocked in Recv, blocked in Send on a full flow-control window, returned) and the client cancels (grpc-go) or disconnects (plain HTTP, gRPC-web): the handler context must end and the blocked call return an error within 5 s.",
+   note="Timing-dependent: a rejected schedule is a violation only if it reproduces twice; HTTP/1.1 disconnects with an unread request body are unobservable by net/http and excluded; signed values unspecified. " + TB),
 }
 
 NOT_YET = {}
